@@ -1,0 +1,14 @@
+//go:build verif
+// +build verif
+
+package capacity
+
+// Verification hook (build tag "verif" only; see /verif/DESIGN.md §2.3): the plotter loop reports named events
+// (idle, popped, step1, plotReturned, done, exit); the function may block, which lets a test own the schedule.
+var VerifPlotterEvent func(sk *SpaceKeeper, name string, sid string)
+
+func verifPlotterEvent(sk *SpaceKeeper, name string, sid string) {
+	if f := VerifPlotterEvent; f != nil {
+		f(sk, name, sid)
+	}
+}
